@@ -274,6 +274,9 @@ func (c10) Run(c *core.Ctx) {
 		if r.svcOnly {
 			routes = append(routes, "extends")
 		}
+		if !r.valid || true {
+			routes = append(routes, "main-dotted-names")
+		}
 		for _, route := range routes {
 			r, route := r, route
 			id := "rule/" + r.name + "/" + route
@@ -282,6 +285,10 @@ func (c10) Run(c *core.Ctx) {
 				main := []string{"compose.yaml"}
 				optSvc := "services:\n  opt: {image: o, profiles: [off]}\n"
 				switch route {
+				case "main-dotted-names":
+					// legal names containing dots (escaped inside tree paths) for the service and the resources under test
+					ren := strings.NewReplacer("\n  a:\n", "\n  a.v2:\n", "\n  extra:", "\n  extra.v1:", "\n  vol:", "\n  vol.v1:", "\"vol:/v\"", "\"vol.v1:/v\"", "\n  x:\n", "\n  x.y:\n")
+					files["compose.yaml"] = ren.Replace(c10base + "---\n" + r.frag + "---\n" + optSvc)
 				case "main":
 					files["compose.yaml"] = c10base + "---\n" + r.frag + "---\n" + optSvc
 				case "override":
